@@ -1,5 +1,5 @@
 """Correspondence for the source-to-Lean translator (gen/py2lean.py) and its run-time library (lean/Asn1/PyLite.lean):
-the *translation* of a function (driver ops KTAG, KLEN, KTOBYTES, KOIDENC, KOIDDEC, KTIME, KREAL, KREALDEC, KDECLEN) and the function itself in /repo are
+the *translation* of a function (driver ops KTAG, KLEN, KTOBYTES, KOIDENC, KOIDDEC, KTIME, KREAL, KREALDEC, KDECLEN, KCERBOOL) and the function itself in /repo are
 run on the same arguments; the Python builtins PyLite transcribes (PYOP) are compared with CPython.
 
 A disagreement means the translator or PyLite misrepresents the code (machinery fault to repair) - it is reported as a
@@ -47,7 +47,7 @@ def _py(f, *a, **kw):
     return ('ok', r)
 
 
-def check(rep, drv, seed, n=400, which=('encodeTag', 'encodeLength', 'toBytes', 'oidEncode', 'oidDecode', 'timeCanon', 'realBin', 'realDec', 'decodeLength')):
+def check(rep, drv, seed, n=400, which=('encodeTag', 'encodeLength', 'toBytes', 'oidEncode', 'oidDecode', 'timeCanon', 'realBin', 'realDec', 'decodeLength', 'cerBool')):
     """returns number of cases compared"""
     from pyasn1.codec.ber import encoder as benc, decoder as bdec
     from pyasn1.compat import integer
@@ -331,6 +331,30 @@ def check(rep, drv, seed, n=400, which=('encodeTag', 'encodeLength', 'toBytes', 
             if impl[0] == 'err' and impl[1] == 'EndOfStreamError':
                 impl = ('err', 'SubstrateUnderrunError')
             cmp_('decodeLength', 'KDECLEN %d %d %s' % (1 if indef else 0, fo, ' '.join(map(str, enc_len))), impl)
+    if 'cerBool' in which:
+        import io as _io2
+        from pyasn1.codec.cer import decoder as cdec_
+
+        class CapB(Exception):
+            pass
+        cb = cdec_.BooleanPayloadDecoder()
+
+        def capture_b(asn1Spec, tagSet, value, **options):
+            raise CapB(value)
+        cb._createComponent = capture_b
+        for i in range(n):
+            ln = rng.choice([0, 1, 1, 1, 1, 2, 3, 130])
+            body = bytes(rng.choice([0, 0xff, 1, 0xfe, 0x80, rng.randrange(256)]) for _ in range(ln))
+
+            def real():
+                try:
+                    for x in cb.valueDecoder(_io2.BytesIO(body), None, tagSet=univ.Boolean.tagSet, length=len(body)):
+                        pass
+                except CapB as c:
+                    return [int(c.args[0])]
+                return ['no-value']
+            impl = _py(real)
+            cmp_('cerBool', 'KCERBOOL %d %s' % (len(body), ' '.join(str(b) for b in body)), impl)
     rep.count('kernel_correspondence', done)
     return done
 
